@@ -17,7 +17,7 @@ ASSUMPTIONS = [
 ]
 RULE = ("ops from harness/src/c07.rs, one splitmix64 PRNG (VERIF_SEED): `many` = one packer run with more blobs than the indexer's MAX_COUNT and blobs recurring behind the intermediate index flush; `hist` = rabin parameter sets (64/64/256 … 512/70/4096; 4096/4096/8192 when a tree-collision file occurs) x initial "
         "trees (1-4 files, up to 2 nested dirs, random/periodic/low-entropy contents 0-4.5 kB) x 1-5 follow-up states each made by 0-2 edits (prepend/insert/delete/overwrite/append/truncate at "
-        "random offsets, duplicate, rename, remove, new file, file = serialised tree of a directory; zero edits = unchanged source) x forced / parent-based; `pack` = 0-40 adds over 1-12 ids, both "
+        "random offsets, duplicate, rename, remove, new file, file = serialised tree of a directory; zero edits = unchanged source) x forced / parent-based; time stamps are full (second, nanosecond) pairs — most rewrites fall into the SAME second as the previous write (nanoseconds differ by 1 ns .. 0.5 s), some into the next second with equal nanoseconds; 8 directed histories on every seed overwrite one file in place (same length) with same-second / next-second / unchanged / same-stamp-other-size stamps; `pack` = 0-40 adds over 1-12 ids, both "
         "types, pack sizes 1 B … 4 MB. Non-trivial = a run that stored at least one blob or a history with >= 2 runs; distinct by hash of (op, observation).")
 EXPLANATION = ("Theorems: stored keys = keys handed to the packers for every schedule (typed indexer set); a blob whose pack is indexed is never stored again by any continuation of the run, and Indexer.indexed never shrinks (the intermediate index-file flush keeps it); added blobs are exactly the ones the index lacks; re-backup after index reload adds "
                "nothing and gives the same tree id; edits re-upload only chunks before the resynchronisation point (from C06); tree and data blob with equal id both stored. Correspondence: per "
